@@ -79,6 +79,55 @@ pub fn exec_oracle(kind: &str, fields: &[&str]) -> String {
             }
             "oracle pass".to_string()
         }
+        "S_C18X" => {
+            // file based macros are looked for in ./geodesy first and in the user's data directory next, in each of them
+            // as a file of their own first and as an item of the register next; a register that lacks the item does
+            // not end the search
+            let dir = std::env::temp_dir().join(format!("gvh-xdg-{}", std::process::id()));
+            let res = dir.join("geodesy").join("resources");
+            if std::fs::create_dir_all(&res).is_err() {
+                return "oracle skip no scratch directory".to_string();
+            }
+            let tick = "```";
+            let _ = std::fs::write(res.join("stupid.md"), format!("# user level\n\n{tick}geodesy:userland\naddone | addone\n{tick}\n\n{tick}geodesy:addthree\nnoop\n{tick}\n"));
+            let _ = std::fs::write(res.join("stupid_alone.resource"), "addone inv\n");
+            let _ = std::fs::write(res.join("stupid_way.resource"), "noop\n");
+            let _ = std::fs::write(res.join("gvuser.md"), format!("{tick}geodesy:one\nhelmert x=7\n{tick}\n"));
+            let _ = std::fs::write(res.join("gvuser_one.resource"), "helmert x=8\n");
+            let old = std::env::var_os("XDG_DATA_HOME");
+            std::env::set_var("XDG_DATA_HOME", &dir);
+            let ctx = Plain::new();
+            let local_way = std::fs::read_to_string("geodesy/resources/stupid_way.resource").unwrap_or_default().trim().to_string();
+            let mut verdict = "oracle pass".to_string();
+            for (name, want) in [
+                ("stupid:userland", Some("addone | addone".to_string())),   // only in the user's register; the local register lacks it
+                ("stupid:alone", Some("addone inv".to_string())),          // only as a user level file
+                ("stupid:way", Some(local_way.clone())),                    // in both: ./geodesy first
+                ("gvuser:one", Some("helmert x=8".to_string())),           // file before register, within one directory
+                ("stupid:nowhere", None),
+                ("gvuser:two", None),
+            ] {
+                let got = ctx.get_resource(name).ok();
+                if got != want {
+                    verdict = format!("oracle FAIL {name} resolves to {:?} with a user level data directory holding stupid.md (userland, addthree), stupid_alone.resource, stupid_way.resource, gvuser.md (one), gvuser_one.resource; expected {:?}", got, want);
+                    break;
+                }
+            }
+            // the local register wins over the user's for an item both have
+            if verdict == "oracle pass" {
+                if let Ok(t) = ctx.get_resource("stupid:addthree") {
+                    if t == "noop" {
+                        verdict = "oracle FAIL stupid:addthree comes from the user level register although ./geodesy has it".to_string();
+                    }
+                }
+            }
+            match old {
+                Some(v) => std::env::set_var("XDG_DATA_HOME", v),
+                None => std::env::remove_var("XDG_DATA_HOME"),
+            }
+            let _ = std::fs::remove_dir_all(&dir);
+            verdict
+        }
         "S_C18G" => {
             // a grid is a function of the point: what it delivers does not depend on what it was asked before
             let m = parse_f(fields[2]);
@@ -1935,6 +1984,21 @@ fn oracle_c20(fields: &[&str]) -> String {
         }
         for (d, o) in data.iter_mut().zip(tuples.iter()) {
             *d = *d - *o;
+        }
+    }
+    // ... and for every line's tuple on its own: a line's numbers are the result for that line's tuple, whatever
+    // stands on the lines before it (moderate inputs only: the whole-batch inputs are compared as sets)
+    if tuples.len() <= 3000 {
+        for (k, t) in tuples.iter().enumerate() {
+            let mut one = vec![*t];
+            let _ = ctx.apply(op, if flag("inv") { Inv } else { Fwd }, &mut one);
+            if flag("rt") {
+                let _ = ctx.apply(op, if flag("inv") { Fwd } else { Inv }, &mut one);
+                one[0] = one[0] - *t;
+            }
+            if !same_bits(&one[0], &data[k]) {
+                return format!("oracle FAIL line {k}: its tuple on its own gives {:?}, among the other lines {:?}", one[0], data[k]);
+            }
         }
     }
     for (k, (line, c)) in lines.iter().zip(data.iter()).enumerate() {
